@@ -77,6 +77,7 @@ func (r *replayer) historyProbe() {
 		r.sum.Executions++
 		return ok
 	}
+	r.embeddedNameProbe()
 	first := acc(*NewEnv(nil))
 	viaPtr := acc(NewEnv(nil))
 	second := acc(*NewEnv(nil))
@@ -99,6 +100,77 @@ func (r *replayer) historyProbe() {
 		})
 		if err != nil {
 			r.fail(Failure{Why: "accepted-for-a-value-environment-but-unresolvable", Src: "PtrM(1)", Mode: "struct", Got: &Got{Err: err.Error()}})
+		}
+	}
+}
+
+// hiddenBase: an embedded struct whose TYPE NAME is unexported.  Its exported fields are promoted (Q is a member
+// of the environment); the embedded field itself, named like the type, cannot be reached from outside the package.
+type hiddenBase struct{ Q int }
+type probeEnv struct {
+	hiddenBase
+	Limit int
+}
+
+// embeddedNameProbe: C03's "unknown name ... is rejected" and soundness on an environment with an embedded struct
+// of unexported type name: the promoted field is accepted and resolves, the embedded field's own name is not a name
+// of the environment (accepting it yields programs that cannot fetch it).
+func (r *replayer) embeddedNameProbe() {
+	env := probeEnv{hiddenBase{7}, 9}
+	for _, src := range []string{"hiddenBase.Q < Limit", "hiddenBase == nil", "hiddenBase"} {
+		var p *vm.Program
+		var err, rerr error
+		guarded(func() {
+			p, err = expr.Compile(src, expr.Env(env))
+			if err == nil {
+				_, rerr = expr.Run(p, env)
+			}
+		})
+		r.sum.Executions++
+		if err == nil && rerr != nil {
+			r.fail(Failure{Why: "typed-program-fails", Src: src, Mode: "struct",
+				Got:  &Got{Stage: "run", Err: rerr.Error()},
+				Tags: []string{"environment struct{ hiddenBase; Limit int }: the embedded field of unexported type name is not reachable"}})
+		}
+	}
+	var out interface{}
+	var err error
+	guarded(func() { out, err = expr.Eval("Q + Limit", env) })
+	r.sum.Executions++
+	if err != nil || out != 16 {
+		r.fail(Failure{Why: "promoted-field-of-unexported-embedded-type", Src: "Q + Limit", Mode: "struct", Got: &Got{Err: fmt.Sprint(out, err)}})
+	}
+}
+
+// layoutProbe: C15 on anonymous struct types.  Two environment types with the same (empty) name and the same
+// members in another order, used one after the other in one process, and a map with the same members: equal results.
+func (r *replayer) layoutProbe() {
+	type res struct {
+		v   interface{}
+		err error
+	}
+	ev := func(src string, env interface{}) res {
+		var x res
+		guarded(func() { x.v, x.err = expr.Eval(src, env) })
+		r.sum.Executions++
+		return x
+	}
+	a := struct {
+		Name      string
+		Qty, Unit int
+	}{"bolt", 3, 5}
+	b := struct {
+		Qty, Unit int
+		Name      string
+	}{40, 2, "nut"}
+	mb := map[string]interface{}{"Qty": 40, "Unit": 2, "Name": "nut"}
+	for _, src := range []string{"Qty + 1", "Qty * Unit", "Name + \"!\"", "Qty in [3, 40]"} {
+		ev(src, a) // whatever the library remembers about the first type
+		g, w := ev(src, b), ev(src, mb)
+		if (g.err == nil) != (w.err == nil) || (g.err == nil && !reflect.DeepEqual(g.v, w.v)) {
+			r.fail(Failure{Why: "differ-value", Src: src, Mode: "struct", Mode2: "map",
+				Got:  &Got{Err: fmt.Sprint(g.v, g.err)},
+				Tags: []string{"anonymous struct{Qty, Unit int; Name string}{40, 2, \"nut\"} after struct{Name string; Qty, Unit int}; the map gives " + fmt.Sprint(w.v, w.err)}})
 		}
 	}
 }
